@@ -145,6 +145,12 @@ def gen_spec(rng):
             "seed": int(rng.integers(1, 10**6)), "rmin": int(rng.integers(0, R + 1)), "pmin": int(rng.integers(1, P + 1)), "magnitudes": [0.05]}
     if rng.random() < 0.5 and R > 1 and 0.0 not in spec["rweights"]:
         spec["rweights"][int(rng.integers(R))] = 0.0
+    if rng.random() < 0.3 and R > 1:
+        # a tiny weight is not a zero weight: its entries are needed
+        k = int(rng.integers(R))
+        if spec["rweights"][k] != 0.0 and sum(w for i, w in enumerate(spec["rweights"]) if i != k) >= 1.0:
+            spec["rweights"][k] = float(rng.choice([1e-9, 1e-12, 1e-30]))
+            spec["_tiny_weight"] = True
     if n_con:
         spec["con_lb"], spec["con_ub"] = [-np.inf] * n_con, rng.normal(size=n_con).tolist()
     if rng.random() < 0.4:
